@@ -17,6 +17,7 @@ parser and the reflection-driven `tick.Evaluate` never raise a run-time error; s
 import Kap.Proofs.C05
 import Kap.Proofs.C05Udf
 import Kap.Proofs.C05Bnd
+import Kap.Proofs.C05Term
 import Kap.Spec.C05
 import Kap.Gen.C05
 namespace Kap.Props.C05
@@ -51,9 +52,26 @@ theorem lexer_in_bounds (c : Ctx) (hf : c.fixed = true) (toks : List Tok) (h : l
 example : lexRun { inp := [0x2F, 0xC3, 0xA9, 0x2F], cls := Cls.none } =
     .done [⟨tRegex, 0, some 4⟩, ⟨tEOF, 4, some 0⟩] := by decide
 
-/-- Full strength of "tokens partition the input": additionally the gaps between tokens are white space
-only and the stream ends with exactly one EOF (at the end of the input) or error token. Not proved; it is
-`Kap.C05.lexSpec`, evaluated on the implementation's token stream for every generated input. -/
+/-- **Exactly one terminal token, at the end**: the stream is `init ++ [last]`; every token of `init`
+carries text and is not EOF; `last` is the error token or the EOF token, and the EOF token ends exactly at
+the end of the input (the scanner never stops early and never emits anything after EOF / an error). -/
+theorem lexer_single_terminal (c : Ctx) (hf : c.fixed = true) (toks : List Tok) (h : lexRun c = .done toks) :
+    ∃ init last, toks = init ++ [last] ∧ (∀ t ∈ init, t.len ≠ none ∧ t.typ ≠ tEOF) ∧
+      ((last.typ = tError ∧ last.len = none) ∨ (last.typ = tEOF ∧ last.len ≠ none ∧ last.pos + tlen last = c.len)) := by
+  have hg : Good c {} := ⟨rfl, by simp, by simp, by simp [Ctx.len], ⟨by simp, by simp⟩⟩
+  have hQ : Q ({} : Lx).toks := by intro t ht; cases ht
+  obtain ⟨t, ts, h', h1, h2⟩ := run_term c hf (lexFuel c) {} .token hg trivial hQ (by simp [mu, rank, lexFuel, Ctx.len])
+  have e : toks = (t :: ts).reverse := by
+    have : LexOut.done toks = LexOut.done (t :: ts).reverse := by rw [← h, ← h']; rfl
+    exact LexOut.done.inj this
+  refine ⟨ts.reverse, t, by rw [e]; simp, fun u hu => h1 u (List.mem_reverse.mp hu), h2⟩
+
+/-- Full strength of "tokens partition the input" = `Kap.C05.lexSpec` holds of the model's own token stream.
+Proved of it: in range, ordered, no overlap (`lexer_in_bounds`), on rune boundaries (`lexer_rune_boundaries`),
+exactly one terminal token at the end, EOF at the end of the input (`lexer_single_terminal`). Still missing:
+(i) the gaps between tokens are WHITE SPACE only (needs `decodeRune` on a truncated gap = on the full
+input), (ii) no operator token is typed `TokenError` (needs the bytes of `l.current()` in the operator
+states). Both are evaluated by `lexSpec` on the implementation's token stream for every generated input. -/
 def lexer_partition_stmt : Prop :=
   ∀ c : Ctx, c.fixed = true → ∀ toks, lexRun c = .done toks → lexSpec c (.toks toks true) = none
 
